@@ -106,8 +106,34 @@ def parseC2R : List String → Option ClientToRelayMsg
 /-- Keys inside message payloads are valid by construction (they are `PublicKey` values). -/
 def allValid : Bytes → Bool := fun _ => true
 
+/-- One frame token of a history: `r1:<kbits>:<hex>` | `r2:<kbits>:<hex>` | `c:<kbits>:<hex>`. -/
+def parseHistFrame (tok : String) : Option (Frame × (Bytes → Bool)) :=
+  match tok.splitOn ":" with
+  | [d, kbits, h] => do
+    let bs ← bytesOfHex h
+    let f ← if d = "r1" then some (Frame.r2c .v1 bs) else if d = "r2" then some (Frame.r2c .v2 bs)
+            else if d = "c" then some (Frame.c2r bs) else none
+    pure (f, validKeyOf kbits bs)
+  | _ => none
+
+def showDecoded : Decoded → String
+  | .r2c r => showRes r showR2C
+  | .c2r r => showRes r showC2R
+
+def handleHistory (cap : String) (toks : List String) : String :=
+  match cap.toNat?, toks.mapM parseHistFrame with
+  | some cap, some fs =>
+    -- validity is a property of the 32 bytes: a key is valid iff some frame's window says so
+    let vk : Bytes → Bool := fun k => fs.any fun (_, v) => v k
+    let (outs, c) := runCached vk (KeyCache.new cap) (fs.map (·.1))
+    let cache := if c.cap = 0 then "off" else if c.entries.isEmpty then "-"
+                 else ",".intercalate (c.entries.map hexOfBytes)
+    " ; ".intercalate (outs.map showDecoded) ++ s!" | cache={cache}"
+  | _, _ => "bad-input"
+
 def handleLine (payload : String) : String :=
   match tokens payload with
+  | "h" :: cap :: toks => handleHistory cap toks
   | ["dr", v, kbits, h] =>
     match bytesOfHex h with
     | none => "bad-input"
